@@ -3,6 +3,7 @@
 # repository's test suite (mutants that fail it are not realistic and are reported as EXCLUDED), then the quick checks named in the expect line.
 out=$1; shift
 for f in "$@"; do
+  f=$(readlink -f "$f")
   name=$(basename $f .diff)
   expect=$(head -1 $f | sed -n 's/^# expect: //p')
   [ -z "$expect" ] && expect=${EXPECT:-}
